@@ -267,6 +267,39 @@ def fd_column(check, proj):
             check.violation("FD-STEP-MAG", q, "relative step %.3e too large for a first-order difference on nonlinear models (> 1e-4)" % float(rel), loc, key="trunc")
 
 
+def matrix_fresh(check, proj):
+    """the linear system of a step may depend on the solver object only through the Jacobian
+    cache (linear models) and, for gear, the stored previous increment"""
+    from ..affine import step_effects
+    allowed = {"jacobian", "jacobian_use", "neq", "dim", "_lastresidual", "residual"}
+    for c in implicit_classes(proj):
+        stepf = proj.resolve(c, "step")
+        bad = {}
+        try:
+            for lin in (0, 1):
+                config, effs = step_effects(proj, c, lin)
+                allw = set()
+                for e in effs:
+                    allw |= e["written"]
+                for e in effs:
+                    for a, where in e["carried"]:
+                        if a in allowed or (a in config and a not in allw):
+                            continue
+                        bad.setdefault(a, where)
+                    if not lin:
+                        for a, where in e["carried"]:
+                            if a in ("jacobian", "jacobian_use") and a in allw:
+                                bad.setdefault(a + " (nonlinear model)", where)
+        except AnalysisError as e:
+            check.undecided("MAT-FRESH", c.qualname, str(e), stepf.loc())
+            continue
+        if bad:
+            a, where = sorted(bad.items())[0]
+            check.violation("MAT-FRESH", c.qualname, "the linear system of a step reads self.%s (at %s) left by an earlier step: a step with a different dt (the side step onto a save time, a new CFL number) solves a stale system" % (a, where), stepf.loc(), key="stale-" + a.split()[0])
+        else:
+            check.ok("MAT-FRESH", c.qualname, "matrix and right-hand side of every step are rebuilt from this step's dt, residual and Jacobian (three consecutive steps, linear and nonlinear models)", stepf.loc())
+
+
 def body(check):
     proj = check.proj
     check.explanation = ("static analysis: abstract interpretation (AFF) of step/solve_implicit/calc_jacobian yields the "
@@ -281,6 +314,7 @@ def body(check):
     check.floor("implicit integrator classes", len(classes), 5)
     for c in classes:
         check.guarded("TH-SCHEME", c.qualname, lambda: th_scheme(check, proj, c), c.loc())
+    check.guarded("MAT-FRESH", "integration.implicitmodel", lambda: matrix_fresh(check, proj))
     check.guarded("JAC-GUARD", "integration.implicitmodel.calc_jacobian", lambda: jac_guard(check, proj))
     check.guarded("FD-COLUMN", "integration.implicitmodel.calc_jacobian", lambda: fd_column(check, proj))
     check.guarded("FD-STEP-ZERO", "integration.implicitmodel.calc_jacobian", lambda: fd_step_zero(check, proj))
